@@ -64,7 +64,8 @@ def explore(chk):
         codes = [w._text_to_code(c) for c in tmp.get_captions("en-US")]
         need = [Fraction(len(code), 5) + 8 for code in codes]
         slack = rng.choice([0, 0, 1, 5, 30, 300])
-        t = need[0] * FRAME + slack * FRAME + rng.choice([0, 1, 1000000])
+        # the programme position matters for the timecode arithmetic (29.97 vs 30 fps drifts 3.6 s per hour): start late too
+        t = need[0] * FRAME + slack * FRAME + rng.choice([0, 1, 1000000, 100 * 10 ** 6, 600 * 10 ** 6, 3599 * 10 ** 6, 2 * 3600 * 10 ** 6 + 17])
         times = []
         for k in range(ncap):
             start = int(t) + 1
